@@ -474,13 +474,14 @@ func (p *pipe) _background() {
 		old.hooks.onInvalidations(nil)
 	}
 
+	// Entries the writer had already dequeued may have been executed by the server although their replies never
+	// arrived: they get the transport error. errConnExpired (which callers re-send unconditionally) is only for
+	// entries that never left the queue, i.e. those dequeued below after the pending results are drained (FIFO).
 	resp := NewErrorResult(err)
+	if err == errConnExpired {
+		resp = NewErrorResult(io.ErrClosedPipe)
+	}
 	for p.loadWaits() != 0 {
-		select {
-		case <-p.close: // p.queue.NextWriteCmd() can only be called after _backgroundWrite
-			_, _, _ = p.queue.NextWriteCmd()
-		default:
-		}
 		if _, _, ch, resps = p.queue.NextResultCh(); ch != nil {
 			for i := range resps {
 				resps[i] = resp
@@ -489,6 +490,13 @@ func (p *pipe) _background() {
 			p.queue.FinishResult()
 		} else {
 			p.queue.FinishResult()
+			select {
+			case <-p.close: // p.queue.NextWriteCmd() can only be called after _backgroundWrite
+				if _, _, ch = p.queue.NextWriteCmd(); ch != nil {
+					resp = NewErrorResult(err) // from here on: entries that were never written
+				}
+			default:
+			}
 			runtime.Gosched()
 		}
 	}
@@ -562,10 +570,9 @@ func (p *pipe) _backgroundRead() (err error) {
 	)
 
 	defer func() {
+		// The entry being answered here was dequeued by the writer, so it may have reached (and been executed by)
+		// the server: it must get the transport error, never errConnExpired, which callers re-send unconditionally.
 		resp := NewErrorResult(err)
-		if e := p.Error(); e == errConnExpired {
-			resp = NewErrorResult(e)
-		}
 		if err != nil && ff < len(multi) {
 			for ; ff < len(resps); ff++ {
 				resps[ff] = resp
